@@ -1277,6 +1277,11 @@ pub fn record_script(script: &[J], max_height: Option<usize>, run: usize, out: &
         }
         let r = s.apply(a);
         if let Err(m) = &r {
+            if m.starts_with("harness:") && panicked {
+                // the script names something an earlier action would have created had it not panicked
+                // (a script written for another height limit, a mutated engine): the run ends here
+                break;
+            }
             if m.starts_with("harness:") {
                 // a defect of the harness / script, not of the code under test: make it loud
                 HARNESS_ERRORS.with(|h| h.borrow_mut().push(format!("run {run}: {m} on {a}")));
